@@ -336,6 +336,40 @@ CHECKS.update({
         design_ref="DESIGN.md section 4/C18"),
 })
 
+
+CHECKS.update({
+    "C07": dict(
+        level="model_checking",
+        technique="TLA+ spec solver/Schedule.tla model-checked by TLC in two parts.  Part A (configuration confluence): one action "
+                  "per Set* call with the cross-slot side effects the code has, every interleaving of every admissible K-subset, "
+                  "invariants Confluent / SamePopulation / NoEvalDuringConfig.  Part B (schedule independence): a map whose work "
+                  "items start, overlap and complete in any order with results stored by index, DE2 selection, the ensemble "
+                  "last-minimum reduction and the step/solve drivers, invariants ScheduleIndependence / ModesAgree / "
+                  "ResultAsSolve; designs that violate the property are refuted.  TLC emits every call order with its predicted "
+                  "configuration record and every map schedule; the harness executes them on the real solvers and compares bit "
+                  "for bit with the TLC record and with the canonical-order / serial run (spec->code)",
+        text="Design: K=4/5/6 subsets of 17 Set* calls, 4 solver kinds, pre-run and live-solver templates; N<=4 work items, 2520 "
+             "start/complete event schedules; 13 refuted designs (a Set* wiping another slot, re-seeding, drawing, evaluating; "
+             "results consumed or reduced in completion order; '<' reduction; skipped last reduction) and 10 vacuity witnesses "
+             "(thorough: 11M distinct states).  Implementation: configuration scripts for DE/DE2/Nelder-Mead/Powell (quick 2.8k: "
+             "all 24 orders of seeded 4-subsets of 9 calls, all 120 orders of a 5-set; thorough 49k: all 720 orders of two "
+             "6-sets ...): the configuration read from the solver equals TLC's record, no cost evaluation and no counter change "
+             "during configuration, the random-generator state is independent of the call order, and the full trajectory "
+             "(population, energies, best, counters, real calls, monitors, histories, Powell's direction set, generator "
+             "states) equals the canonical order's after every Step.  DE2 under maps executing every TLC schedule inline, "
+             "through forced real thread pools with overlapping execution, shuffles, free threads and forked processes, compared "
+             "with the serial run after every Step.  Lattice/Buckshot ensembles with Nelder-Mead/Powell members under the same "
+             "schedules, Solve vs repeated Step vs Solve(step=True): result, counters and per-member results identical.",
+        note="trusted: TLC, the projection of private attributes onto the model's record, EventMap (verified to have executed the "
+             "requested event sequence); premises: seed + initial-points call at a fixed place, drawing calls (tight=True) only "
+             "when that unit is first or last, calls write distinct slots, monitors handed over empty, new=True limits not "
+             "combined with a new=True monitor on a live solver (relative limits are documented to depend on the counters at "
+             "call time: TLC refutes confluence when this premise is dropped); ensemble members draw no random numbers; "
+             "pathos/multiprocess maps are not available in the sandbox (a fork-per-item map stands in for DE2); "
+             "SparsitySolver not run (fillpts runs a random DE)",
+        design_ref="DESIGN.md section 4/C07"),
+})
+
 PENDING = {}
 for _i in range(1, 21):
     _id = "C%02d" % _i
